@@ -1,52 +1,46 @@
 import AasVerif.Lemmas.InferCases
-import AasVerif.Model.Expr.Fragment
 /-!
-None-safety of the inferrer on the fragment without `any` / `all`, by mutual structural
+None-safety of the inferrer for the whole expression language, by mutual structural
 recursion over the expression (the fact set is an invariant of the traversal).
 -/
 namespace AasVerif.Expr
 
-variable {key : Expr → Text}
+variable {κ : Type} [DecidableEq κ]
+
+variable {key : Expr → κ}
 
 mutual
 theorem safe_expr (hk : Function.Injective key) :
-    ∀ (e : Expr) (Γ : TEnv) (F : Facts) (ρ : Env) (τ : Ty), noQuant e = true → Inv key Γ F ρ →
+    ∀ (e : Expr) (Γ : TEnv) (F : Facts κ) (ρ : Env) (τ : Ty), Inv key Γ F ρ →
       infer key Γ F e = .ok τ → Good Γ.decls (eval ρ e) τ
-  | .member i n, Γ, F, ρ, τ, hq, inv, h =>
-    member_good inv (fun ti hi => safe_expr hk i Γ F ρ ti (by simpa [noQuant] using hq) inv hi) h
-  | .index c i, Γ, F, ρ, τ, hq, inv, h => by
-    simp only [noQuant, Bool.and_eq_true] at hq
-    exact index_good (fun ti hi => safe_expr hk c Γ F ρ ti hq.1 inv hi)
-      (fun ti hi => safe_expr hk i Γ F ρ ti hq.2 inv hi) h
-  | .cmp l op r, Γ, F, ρ, τ, hq, inv, h => by
-    simp only [noQuant, Bool.and_eq_true] at hq
-    exact cmp_good inv (fun ti hi => safe_expr hk l Γ F ρ ti hq.1 inv hi)
-      (fun ti hi => safe_expr hk r Γ F ρ ti hq.2 inv hi) h
-  | .isIn m c, Γ, F, ρ, τ, hq, inv, h => by
-    simp only [noQuant, Bool.and_eq_true] at hq
-    exact isIn_good inv (fun ti hi => safe_expr hk m Γ F ρ ti hq.1 inv hi)
-      (fun ti hi => safe_expr hk c Γ F ρ ti hq.2 inv hi) h
-  | .impl a c, Γ, F, ρ, τ, hq, inv, h => by
-    simp only [noQuant, Bool.and_eq_true] at hq
-    exact impl_good hk inv (fun ti hi => safe_expr hk a Γ F ρ ti hq.1 inv hi)
-      (fun ti inv' hi => safe_expr hk c Γ _ ρ ti hq.2 inv' hi) h
-  | .methodCall i n args, Γ, F, ρ, τ, hq, inv, h => by
-    simp only [noQuant, Bool.and_eq_true] at hq
-    exact methodCall_good inv (fun ti hi => safe_expr hk i Γ F ρ ti hq.1 inv hi)
-      (fun ha => safe_args hk args Γ F ρ hq.2 inv ha) h
-  | .name x, Γ, F, ρ, τ, _, inv, h => name_good inv h
-  | .funCall n args, Γ, F, ρ, τ, hq, inv, h => by
-    simp only [noQuant] at hq
-    exact funCall_good inv (fun ha => safe_args hk args Γ F ρ hq inv ha) h
-  | .const c, Γ, F, ρ, τ, _, _, h => const_good h
-  | .isNone e, Γ, F, ρ, τ, hq, inv, h =>
-    isNone_good (fun ti hi => safe_expr hk e Γ F ρ ti (by simpa [noQuant] using hq) inv hi) h
-  | .isNotNone e, Γ, F, ρ, τ, hq, inv, h =>
-    isNotNone_good (fun ti hi => safe_expr hk e Γ F ρ ti (by simpa [noQuant] using hq) inv hi) h
-  | .not e, Γ, F, ρ, τ, hq, inv, h =>
-    not_good (fun ti hi => safe_expr hk e Γ F ρ ti (by simpa [noQuant] using hq) inv hi) h
-  | .and es, Γ, F, ρ, τ, hq, inv, h => by
-    simp only [noQuant] at hq
+  | .member i n, Γ, F, ρ, τ, inv, h =>
+    member_good inv (fun ti hi => safe_expr hk i Γ F ρ ti inv hi) h
+  | .index c i, Γ, F, ρ, τ, inv, h => by
+    exact index_good (fun ti hi => safe_expr hk c Γ F ρ ti inv hi)
+      (fun ti hi => safe_expr hk i Γ F ρ ti inv hi) h
+  | .cmp l op r, Γ, F, ρ, τ, inv, h => by
+    exact cmp_good inv (fun ti hi => safe_expr hk l Γ F ρ ti inv hi)
+      (fun ti hi => safe_expr hk r Γ F ρ ti inv hi) h
+  | .isIn m c, Γ, F, ρ, τ, inv, h => by
+    exact isIn_good inv (fun ti hi => safe_expr hk m Γ F ρ ti inv hi)
+      (fun ti hi => safe_expr hk c Γ F ρ ti inv hi) h
+  | .impl a c, Γ, F, ρ, τ, inv, h => by
+    exact impl_good hk inv (fun ti hi => safe_expr hk a Γ F ρ ti inv hi)
+      (fun ti inv' hi => safe_expr hk c Γ _ ρ ti inv' hi) h
+  | .methodCall i n args, Γ, F, ρ, τ, inv, h => by
+    exact methodCall_good inv (fun ti hi => safe_expr hk i Γ F ρ ti inv hi)
+      (fun ha => safe_args hk args Γ F ρ inv ha) h
+  | .name x, Γ, F, ρ, τ, inv, h => name_good inv h
+  | .funCall n args, Γ, F, ρ, τ, inv, h => by
+    exact funCall_good inv (fun ha => safe_args hk args Γ F ρ inv ha) h
+  | .const c, Γ, F, ρ, τ, _, h => const_good h
+  | .isNone e, Γ, F, ρ, τ, inv, h =>
+    isNone_good (fun ti hi => safe_expr hk e Γ F ρ ti inv hi) h
+  | .isNotNone e, Γ, F, ρ, τ, inv, h =>
+    isNotNone_good (fun ti hi => safe_expr hk e Γ F ρ ti inv hi) h
+  | .not e, Γ, F, ρ, τ, inv, h =>
+    not_good (fun ti hi => safe_expr hk e Γ F ρ ti inv hi) h
+  | .and es, Γ, F, ρ, τ, inv, h => by
     simp only [infer] at h
     cases ha : inferAnd key Γ F es with
     | err xs => simp [ha] at h
@@ -55,9 +49,8 @@ theorem safe_expr (hk : Function.Injective key) :
       simp only [ha, Res.ok.injEq] at h
       subst h
       refine good_loose ?_ (by simp [Ty.bool, Ty.isLoose])
-      simpa [eval] using safe_and hk es Γ F ρ hq inv ha
-  | .or es, Γ, F, ρ, τ, hq, inv, h => by
-    simp only [noQuant] at hq
+      simpa [eval] using safe_and hk es Γ F ρ inv ha
+  | .or es, Γ, F, ρ, τ, inv, h => by
     simp only [infer] at h
     cases ha : inferOr key Γ F es with
     | err xs => simp [ha] at h
@@ -66,17 +59,14 @@ theorem safe_expr (hk : Function.Injective key) :
       simp only [ha, Res.ok.injEq] at h
       subst h
       refine good_loose ?_ (by simp [Ty.bool, Ty.isLoose])
-      simpa [eval] using safe_or hk es Γ F ρ hq inv ha
-  | .add l r, Γ, F, ρ, τ, hq, inv, h => by
-    simp only [noQuant, Bool.and_eq_true] at hq
-    exact add_good inv (fun ti hi => safe_expr hk l Γ F ρ ti hq.1 inv hi)
-      (fun ti hi => safe_expr hk r Γ F ρ ti hq.2 inv hi) h
-  | .sub l r, Γ, F, ρ, τ, hq, inv, h => by
-    simp only [noQuant, Bool.and_eq_true] at hq
-    exact sub_good inv (fun ti hi => safe_expr hk l Γ F ρ ti hq.1 inv hi)
-      (fun ti hi => safe_expr hk r Γ F ρ ti hq.2 inv hi) h
-  | .joinedStr ps, Γ, F, ρ, τ, hq, inv, h => by
-    simp only [noQuant] at hq
+      simpa [eval] using safe_or hk es Γ F ρ inv ha
+  | .add l r, Γ, F, ρ, τ, inv, h => by
+    exact add_good inv (fun ti hi => safe_expr hk l Γ F ρ ti inv hi)
+      (fun ti hi => safe_expr hk r Γ F ρ ti inv hi) h
+  | .sub l r, Γ, F, ρ, τ, inv, h => by
+    exact sub_good inv (fun ti hi => safe_expr hk l Γ F ρ ti inv hi)
+      (fun ti hi => safe_expr hk r Γ F ρ ti inv hi) h
+  | .joinedStr ps, Γ, F, ρ, τ, inv, h => by
     simp only [infer] at h
     cases ha : inferParts key Γ F ps with
     | err xs => simp [ha] at h
@@ -85,45 +75,69 @@ theorem safe_expr (hk : Function.Injective key) :
       simp only [ha, Res.ok.injEq] at h
       subst h
       refine good_loose ?_ (by simp [Ty.isLoose])
-      simpa [eval] using safe_parts hk ps Γ F ρ hq inv ha
-  | .any _ _, _, _, _, _, hq, _, _ => by simp [noQuant] at hq
-  | .all _ _, _, _, _, _, hq, _, _ => by simp [noQuant] at hq
+      simpa [eval] using safe_parts hk ps Γ F ρ inv ha
+  | .any g c, Γ, F, ρ, τ, inv, h => by
+    simp only [infer] at h
+    cases hg : inferGen key Γ F g with
+    | err xs => simp [hg] at h
+    | crash s => simp [hg] at h
+    | ok xτ =>
+      obtain ⟨x, τx⟩ := xτ
+      simp only [hg] at h
+      obtain ⟨hc, hτ⟩ := condRes_ok h
+      obtain ⟨hx, hgen⟩ := safe_gen hk g Γ F ρ x τx inv hg
+      exact any_good inv hx hgen
+        (fun item hty => (safe_expr hk c (Γ.bind x τx) F (ρ.bind x item) _ (inv.bind hx hty) hc).1) hτ
+  | .all g c, Γ, F, ρ, τ, inv, h => by
+    simp only [infer] at h
+    cases hg : inferGen key Γ F g with
+    | err xs => simp [hg] at h
+    | crash s => simp [hg] at h
+    | ok xτ =>
+      obtain ⟨x, τx⟩ := xτ
+      simp only [hg] at h
+      obtain ⟨hc, hτ⟩ := condRes_ok h
+      obtain ⟨hx, hgen⟩ := safe_gen hk g Γ F ρ x τx inv hg
+      exact all_good inv hx hgen
+        (fun item hty => (safe_expr hk c (Γ.bind x τx) F (ρ.bind x item) _ (inv.bind hx hty) hc).1) hτ
+theorem safe_gen (hk : Function.Injective key) :
+    ∀ (g : Gen) (Γ : TEnv) (F : Facts κ) (ρ : Env) (x : Text) (τx : Ty), Inv key Γ F ρ →
+      inferGen key Γ F g = .ok (x, τx) → Γ.find x = none ∧ GenGood Γ.decls x τx (evalGen ρ g)
+  | .forEach y it, Γ, F, ρ, x, τx, inv, h =>
+    forEach_good (fun ti hi => safe_expr hk it Γ F ρ ti inv hi) h
+  | .forRange y a b, Γ, F, ρ, x, τx, inv, h =>
+    forRange_good (fun ti hi => safe_expr hk a Γ F ρ ti inv hi) (fun ti hi => safe_expr hk b Γ F ρ ti inv hi) h
 theorem safe_and (hk : Function.Injective key) :
-    ∀ (es : List Expr) (Γ : TEnv) (F : Facts) (ρ : Env), noQuantList es = true → Inv key Γ F ρ →
+    ∀ (es : List Expr) (Γ : TEnv) (F : Facts κ) (ρ : Env), Inv key Γ F ρ →
       inferAnd key Γ F es = .ok () → evalAnd ρ es ≠ .noneDeref
-  | [], _, _, _, _, _, _ => by simp [evalAnd]
-  | e :: es, Γ, F, ρ, hq, inv, h => by
-    simp only [noQuantList, Bool.and_eq_true] at hq
-    exact and_cons_ne hk inv (fun ti hi => safe_expr hk e Γ F ρ ti hq.1 inv hi)
-      (fun inv' h' => safe_and hk es Γ _ ρ hq.2 inv' h') h
+  | [], _, _, _, _, _ => by simp [evalAnd]
+  | e :: es, Γ, F, ρ, inv, h => by
+    exact and_cons_ne hk inv (fun ti hi => safe_expr hk e Γ F ρ ti inv hi)
+      (fun inv' h' => safe_and hk es Γ _ ρ inv' h') h
 theorem safe_or (hk : Function.Injective key) :
-    ∀ (es : List Expr) (Γ : TEnv) (F : Facts) (ρ : Env), noQuantList es = true → Inv key Γ F ρ →
+    ∀ (es : List Expr) (Γ : TEnv) (F : Facts κ) (ρ : Env), Inv key Γ F ρ →
       inferOr key Γ F es = .ok () → evalOr ρ es ≠ .noneDeref
-  | [], _, _, _, _, _, _ => by simp [evalOr]
-  | e :: es, Γ, F, ρ, hq, inv, h => by
-    simp only [noQuantList, Bool.and_eq_true] at hq
-    exact or_cons_ne hk inv (fun ti hi => safe_expr hk e Γ F ρ ti hq.1 inv hi)
-      (fun inv' h' => safe_or hk es Γ _ ρ hq.2 inv' h') h
+  | [], _, _, _, _, _ => by simp [evalOr]
+  | e :: es, Γ, F, ρ, inv, h => by
+    exact or_cons_ne hk inv (fun ti hi => safe_expr hk e Γ F ρ ti inv hi)
+      (fun inv' h' => safe_or hk es Γ _ ρ inv' h') h
 theorem safe_args (hk : Function.Injective key) :
-    ∀ (es : List Expr) (Γ : TEnv) (F : Facts) (ρ : Env), noQuantList es = true → Inv key Γ F ρ →
+    ∀ (es : List Expr) (Γ : TEnv) (F : Facts κ) (ρ : Env), Inv key Γ F ρ →
       inferArgs key Γ F es = .ok () → ArgsSafe (evalArgs ρ es)
-  | [], _, _, _, _, _, _ => by simp [evalArgs, ArgsSafe]
-  | e :: es, Γ, F, ρ, hq, inv, h => by
-    simp only [noQuantList, Bool.and_eq_true] at hq
-    exact args_cons_safe (fun ti hi => safe_expr hk e Γ F ρ ti hq.1 inv hi)
-      (fun h' => safe_args hk es Γ F ρ hq.2 inv h') h
+  | [], _, _, _, _, _ => by simp [evalArgs, ArgsSafe]
+  | e :: es, Γ, F, ρ, inv, h => by
+    exact args_cons_safe (fun ti hi => safe_expr hk e Γ F ρ ti inv hi)
+      (fun h' => safe_args hk es Γ F ρ inv h') h
 theorem safe_parts (hk : Function.Injective key) :
-    ∀ (ps : List JPart) (Γ : TEnv) (F : Facts) (ρ : Env), noQuantParts ps = true → Inv key Γ F ρ →
+    ∀ (ps : List JPart) (Γ : TEnv) (F : Facts κ) (ρ : Env), Inv key Γ F ρ →
       inferParts key Γ F ps = .ok () → evalParts ρ ps ≠ .noneDeref
-  | [], _, _, _, _, _, _ => by simp [evalParts]
-  | .lit s :: ps, Γ, F, ρ, hq, inv, h => by
-    simp only [noQuantParts] at hq
+  | [], _, _, _, _, _ => by simp [evalParts]
+  | .lit s :: ps, Γ, F, ρ, inv, h => by
     simp only [inferParts] at h
-    exact parts_lit_ne (safe_parts hk ps Γ F ρ hq inv h)
-  | .fv e :: ps, Γ, F, ρ, hq, inv, h => by
-    simp only [noQuantParts, Bool.and_eq_true] at hq
-    exact parts_fv_ne inv (fun ti hi => safe_expr hk e Γ F ρ ti hq.1 inv hi)
-      (fun h' => safe_parts hk ps Γ F ρ hq.2 inv h') h
+    exact parts_lit_ne (safe_parts hk ps Γ F ρ inv h)
+  | .fv e :: ps, Γ, F, ρ, inv, h => by
+    exact parts_fv_ne inv (fun ti hi => safe_expr hk e Γ F ρ ti inv hi)
+      (fun h' => safe_parts hk ps Γ F ρ inv h') h
 end
 
 end AasVerif.Expr
